@@ -39,6 +39,12 @@ impl InFlightRequests {
         self.request_data.len()
     }
 
+    /// Number of pending deadline timers (verification accessor).
+    #[cfg(tarpc_verif)]
+    pub fn verif_timers_len(&self) -> usize {
+        self.deadlines.len()
+    }
+
     /// Starts a request, unless a request with the same ID is already in flight.
     pub fn start_request(
         &mut self,
